@@ -73,7 +73,7 @@ Proof. vm_compute. reflexivity. Qed.
 Definition only (k : nat) : deviations :=
   {| d_period_wallclock := Nat.eqb k 60; d_once_md_this_year := Nat.eqb k 61; d_float_floor := Nat.eqb k 63;
      d_su_coincidence := Nat.eqb k 64; d_newsub_adj_recheck := false; d_legacy_gap_recheck := false;
-     d_md_invalid_raises := Nat.eqb k 65 |}.
+     d_md_invalid_raises := Nat.eqb k 65; d_legacy_stop_fault := Nat.eqb k 67 |}.
 
 Definition full (y m d : Z) (t : tpart) : dtexpr := {| de_date := DFull y m d; de_time := t; de_off := None |}.
 
@@ -204,3 +204,11 @@ Lemma refuted_D62 : exists t adj u,
   default_wake (tz_lu ny2024) (tz_ul ny2024) perfect as_code 5 t adj u = Some (tz_lu ny2024 t + HOUR) /\
   default_wake (tz_lu ny2024) (tz_ul ny2024) perfect all_off 5 t adj u = Some (tz_lu ny2024 t).
 Proof. exists 1730613600000000, 1730617200000000, 1730631600000000. split; vm_compute; reflexivity. Qed.
+
+(* D67: removal with a failing unsubscribe: the conformant stop always cancels the timer and runs "shutdown"; the legacy code's
+   does not *)
+Lemma stop_completes_conformant cfg legacy raises : d_legacy_stop_fault cfg = false -> stop_completes cfg legacy raises = true.
+Proof. intros H. unfold stop_completes. rewrite H, andb_false_r. reflexivity. Qed.
+
+Lemma refuted_D67 : stop_completes as_code true true = false /\ stop_completes as_code false true = true.
+Proof. split; reflexivity. Qed.
